@@ -220,7 +220,7 @@ PROPS = {
     "C15": dict(
         module="OrbitModel.Properties.C15",
         theorems=["Orbit.C15.effective_limit", "Orbit.C15.trim_panics_iff", "Orbit.C15.trim_keeps_newest",
-                  "Orbit.C15.load_lists_newest_n_of_a_chain", "Orbit.C15.load_one_head_never_panics", "Orbit.C15.estimated_trim_panicked_on_a_log_with_holes_before_the_fix",
+                  "Orbit.C15.load_lists_newest_n_of_a_chain", "Orbit.C15.load_one_head_never_panics", "Orbit.C15.estimated_trim_panicked_on_a_log_with_holes_before_the_fix", "Orbit.C15.the_second_join_of_load_is_a_trim",
                   "Orbit.C15.limit_normalisation_tied_to_go_text", "Orbit.C15.pinned_tree_panicked_or_emptied"],
         families=[("limit", 80, 2500, 12)],
         corr_fields={"values", "heads", "idx", "len", "load", "local", "remote"},
